@@ -24,7 +24,7 @@ PLAN = {
     "thorough": {"shards": 16, "shard_timeout": 3600, "case_timeout": 60, "grammars": 7000, "max_case_timeouts": 80},
 }
 THRESHOLDS = {
-    "quick": {"arguments_compared": 5000, "end_of_history_compared": 3000, "step_applications": 800, "tree_nodes_snapshotted": 20000, "kind:tree": 500, "kind:ge": 300, "kind:sge": 300, "kind:dsge": 300, "kind:stack": 100, "set:step_kinds": 8, "lazy_dsge_sessions": 50, "operator_arguments_never_mapped": 100},
+    "quick": {"arguments_compared": 5000, "end_of_history_compared": 3000, "step_applications": 800, "tree_nodes_snapshotted": 20000, "kind:tree": 500, "kind:ge": 300, "kind:sge": 300, "kind:dsge": 300, "kind:stack": 100, "set:step_kinds": 8, "lazy_dsge_sessions": 50, "step_cases_with_nan_or_infinite_fitness": 15, "operator_arguments_never_mapped": 100},
     "thorough": {"arguments_compared": 100000, "end_of_history_compared": 60000, "step_applications": 15000},
 }
 
@@ -38,7 +38,7 @@ def gen_cases(tier, seed):
         yield {"kind": "ops", "desc": desc, "repr": "dsge", "decider": "own", "extra_depth": rng.choice([2, 3, 4]), "seed": rng.randrange(10**6), "nops": 40, "crossover_heavy": True}
         yield {"kind": "ops", "desc": desc, "repr": "dsge", "decider": "own", "extra_depth": rng.choice([1, 2, 3]), "seed": rng.randrange(10**6), "nops": 24, "lazy": True}
         rk = rng.choice(workload.REPRS)
-        yield {"kind": "steps", "desc": desc, "repr": rk, "decider": rng.choice(["maxdepth", "pigrow", "progressive"]), "extra_depth": rng.choice([1, 2, 3]), "seed": rng.randrange(10**6), "pop": rng.choice([2, 3, 5, 8, 11]), "gens": rng.randint(3, 12), "multi": rng.random() < 0.3}
+        yield {"kind": "steps", "desc": desc, "repr": rk, "decider": rng.choice(["maxdepth", "pigrow", "progressive"]), "extra_depth": rng.choice([1, 2, 3]), "seed": rng.randrange(10**6), "pop": rng.choice([2, 3, 5, 8, 11]), "gens": rng.randint(3, 12), "multi": rng.random() < 0.3, "odd_values": rng.random() < 0.25}
 
 
 # ------------------------------------------------------------------------------------ snapshots
@@ -97,7 +97,8 @@ def dsge_extends(s0, s1):
 
 
 def snap_individual(kind, model, ind, rec=None):
-    fs = tuple(sorted((id(p), (f.maximizing_aggregate, tuple(f.fitness_components))) for p, f in ind.fitness_store.items()))
+    # floats by repr: a cached NaN compares unequal to itself and would read as a change
+    fs = tuple(sorted((id(p), (repr(f.maximizing_aggregate), tuple(repr(c) for c in f.fitness_components))) for p, f in ind.fitness_store.items()))
     ph = None if ind.phenotype is None else model.canon(ind.phenotype)
     return {"genotype": snap_genotype(kind, model, ind.genotype, rec), "fitness": fs, "phenotype": ph, "metadata": tuple(sorted((k, repr(v)) for k, v in ind.metadata.items() if k != "generation"))}
 
@@ -277,12 +278,22 @@ def run_steps(ctx, case, rec):
         rec.count("config_rejected")
         return
 
+    odd = bool(case.get("odd_values"))  # fitness values without an order (NaN) or at the ends of it (inf): legal floats
+
     def f1(p):
-        return float(len(model.canon(p)) % 7)
+        n = len(model.canon(p))
+        if odd and n % 4 == 0:
+            return float("nan") if n % 8 == 0 else float("inf")
+        return float(n % 7)
 
     def f3(p):
         t = model.canon(p)
+        if odd and len(t) % 4 == 0:
+            return [float("inf"), float("inf"), float(t.count(",") % 4)]  # inf - inf = nan in the default aggregate under mixed directions
         return [float(len(t) % 5), float(t.count("(") % 3), float(t.count(",") % 4)]
+
+    if odd:
+        rec.count("step_cases_with_nan_or_infinite_fitness")
 
     prob = MultiObjectiveProblem([rng.random() < 0.5 for _ in range(3)], f3) if case["multi"] else SingleObjectiveProblem(f1, minimize=rng.random() < 0.5)
     ev = SequentialEvaluator()
